@@ -1,10 +1,14 @@
 package main
 
 import (
+	"bytes"
 	"crypto/sha1"
 	"encoding/binary"
 	"encoding/hex"
 	"fmt"
+	"sync"
+
+	"github.com/mgtv-tech/redis-GunYu/pkg/digest"
 )
 
 // Every byte fed into a cache identifies where it came from: the log byte at offset o of
@@ -105,4 +109,45 @@ func hexSnippet(b []byte, at, n int) string {
 func runID(label string) string {
 	h := sha1.Sum([]byte("c16-runid|" + label))
 	return hex.EncodeToString(h[:])
+}
+
+// rdbBytes is the snapshot taken at offset left of replication id `id`: PRF bytes followed by the
+// 8-byte little-endian CRC64 trailer a real RDB ends with (the disk cache verifies it when
+// channel.verifyCrc is on).  Memoised: every side of a case feeds and expects the same bytes.
+var rdbMemo sync.Map
+
+func rdbBytes(id string, left, size int64) []byte {
+	k := fmt.Sprintf("%s|%d|%d", id, left, size)
+	if v, ok := rdbMemo.Load(k); ok {
+		return v.([]byte)
+	}
+	b := make([]byte, size)
+	prfFill(b, rdbKey(id, left), 0)
+	if size > 8 {
+		h := digest.New()
+		h.Write(b[:size-8])
+		binary.LittleEndian.PutUint64(b[size-8:], h.Sum64())
+	}
+	rdbMemo.Store(k, b)
+	return b
+}
+
+// diffBytes: index of the first byte of got that differs from exp (got may be a prefix), or -1.
+func diffBytes(got, exp []byte) int {
+	n := len(got)
+	if n > len(exp) {
+		n = len(exp)
+	}
+	if bytes.Equal(got[:n], exp[:n]) {
+		if len(got) > len(exp) {
+			return len(exp)
+		}
+		return -1
+	}
+	for i := 0; i < n; i++ {
+		if got[i] != exp[i] {
+			return i
+		}
+	}
+	return -1
 }
